@@ -17,7 +17,15 @@ def main():
     ap.add_argument("--replay")
     ap.add_argument("--nproc", type=int, default=None)
     ap.add_argument("--budget", type=int, default=None)
+    ap.add_argument("--twin", action="store_true", help="reachability twin: every property clause is replaced by false; the "
+                    "run must end with a replayable VIOLATION (exit 1), otherwise the harness is vacuous. Writes to a scratch directory.")
     a = ap.parse_args()
+    if a.twin:
+        os.environ["SYMX_TWIN"] = "1"
+        os.environ.setdefault("VERIF_OUT", "/tmp/verif_twin_out")
+        import importlib
+        from symx import engine
+        engine.TWIN = True
     prop = a.prop.upper()
     modname = "harness." + prop.lower()
     seed = int(os.environ.get("VERIF_SEED", "0") or 0)
